@@ -751,6 +751,40 @@ fn relation_cases() -> Vec<Case> {
             }
         }
     }
+    // rings that come back to a vertex they have already visited: through their start vertex (two lobes), with a
+    // spike (A, B, A), with a repeated inner vertex; as outer ring and as hole
+    let revisiting: Vec<Vec<(f64, f64)>> = vec![
+        vec![(0.0, 0.0), (0.0, 4.0), (4.0, 4.0), (0.0, 0.0), (4.0, -4.0), (0.0, -4.0), (0.0, 0.0)],
+        vec![(0.0, 0.0), (0.0, 4.0), (2.0, 4.0), (2.0, 6.0), (2.0, 4.0), (4.0, 4.0), (4.0, 0.0), (0.0, 0.0)],
+        vec![(0.0, 0.0), (0.0, 4.0), (4.0, 4.0), (2.0, 2.0), (4.0, 0.0), (2.0, 2.0), (0.0, 0.0)],
+        vec![(0.0, 0.0), (0.0, 4.0), (4.0, 4.0), (4.0, 0.0), (2.0, 0.0), (2.0, 1.0), (2.0, 0.0), (0.0, 0.0)],
+    ];
+    for ty in [Ty::Polygon, Ty::PolygonM, Ty::PolygonZ] {
+        for r in &revisiting {
+            for rev in [false, true] {
+                let mut ring = r.clone();
+                if rev {
+                    ring.reverse();
+                }
+                v.push(Case::Shape(MShape { ty, parts: vec![MPart { kind: 0, pts: to_p4(&ring, 0) }] }));
+                let shifted: Vec<(f64, f64)> = ring.iter().map(|(x, y)| (x * 0.125 + 10.0, y * 0.125 + 10.0)).collect();
+                v.push(Case::Shape(MShape { ty, parts: vec![MPart { kind: 0, pts: to_p4(&sq(0.0, 0.0, 40.0, true), 0) }, MPart { kind: 1, pts: to_p4(&shifted, 9) }] }));
+            }
+        }
+    }
+    // the same rings coming from geo-types (exterior, and hole of a big square)
+    for r in &revisiting {
+        for rev in [false, true] {
+            let mut ring = r.clone();
+            if rev {
+                ring.reverse();
+            }
+            v.push(Case::Geo { kind: "Polygon".to_string(), groups: vec![vec![ring.clone()]] });
+            let shifted: Vec<(f64, f64)> = ring.iter().map(|(x, y)| (x * 0.125 + 10.0, y * 0.125 + 10.0)).collect();
+            v.push(Case::Geo { kind: "Polygon".to_string(), groups: vec![vec![sq(0.0, 0.0, 40.0, true), shifted.clone()]] });
+            v.push(Case::Geo { kind: "MultiPolygon".to_string(), groups: vec![vec![ring.clone()], vec![sq(100.0, 0.0, 40.0, true), shifted.iter().map(|(x, y)| (x + 100.0, *y)).collect()]] });
+        }
+    }
     for ty in [Ty::Polyline, Ty::PolylineM, Ty::PolylineZ] {
         // chains: each part starts where the previous one ends / where it starts / is the previous one again
         let pts: [(f64, f64); 5] = [(0.0, 0.0), (1.0, 1.0), (2.0, 0.0), (3.0, 1.0), (0.0, 0.0)];
@@ -895,7 +929,7 @@ pub fn check(tier: Tier) -> i32 {
             tier,
             level: "model_checking",
             engine: "E2 enumerator on the real From/TryFrom impls between shapefile and geo-types values and the geo-traits accessors (library built with features geo-types + geo-traits)",
-            rule: "shapes: Point/PointM/PointZ with <= 2 special values from the per-dimension alphabets; Multipoint* of 1-3 points and Polyline* structures with one X/Y slot replaced by every value of F_xy; Polygon*: every role word of the outer-first language O I{0..2} (O I{0..2}){0..2} x ring templates {triangle cw/ccw, square cw/ccw, zero-area, open triangle} (all combinations up to 3 rings, a rotating choice above), and k outer rings with 0-2 holes each for every k up to 48; multipatches: every kind vector of length 1-3 over the 6 kinds (ring-only ones convert, any strip / fan is refused); NullShape; geo-types: Point, Line, LineString, MultiLineString (1-3), MultiPoint (1-3), Polygon with 0-2 holes x templates, MultiPolygon of 1-3 polygons, Rect, Triangle, GeometryCollection; geo-traits: every Point/PointM/PointZ with <= 2 special values from the full alphabet (no-data, below-threshold, NaN measures included), and every point of Multipoint*/Polyline* structures reached through the MultiPointTrait / MultiLineStringTrait views with one slot replaced by every value of its alphabet; plus polygons whose hole lies inside an earlier outer ring than the one it is listed under (every arrangement of a big island, a far islet, an islet next to it and three hole positions), polylines whose consecutive parts share end points or coincide (all pairs and triples over 6 segments); plus shapes READ from records encoded as given: polylines with parts of 1-3 vertices in every arrangement of up to 3 parts, polygons (with and without a hole) whose rings are closed in X / Y while the last vertex differs from the first in Z, M, both or neither; every case is non-trivial",
+            rule: "shapes: Point/PointM/PointZ with <= 2 special values from the per-dimension alphabets; Multipoint* of 1-3 points and Polyline* structures with one X/Y slot replaced by every value of F_xy; Polygon*: every role word of the outer-first language O I{0..2} (O I{0..2}){0..2} x ring templates {triangle cw/ccw, square cw/ccw, zero-area, open triangle} (all combinations up to 3 rings, a rotating choice above), and k outer rings with 0-2 holes each for every k up to 48; multipatches: every kind vector of length 1-3 over the 6 kinds (ring-only ones convert, any strip / fan is refused); NullShape; geo-types: Point, Line, LineString, MultiLineString (1-3), MultiPoint (1-3), Polygon with 0-2 holes x templates, MultiPolygon of 1-3 polygons, Rect, Triangle, GeometryCollection; geo-traits: every Point/PointM/PointZ with <= 2 special values from the full alphabet (no-data, below-threshold, NaN measures included), and every point of Multipoint*/Polyline* structures reached through the MultiPointTrait / MultiLineStringTrait views with one slot replaced by every value of its alphabet; plus polygons whose hole lies inside an earlier outer ring than the one it is listed under (every arrangement of a big island, a far islet, an islet next to it and three hole positions), polylines whose consecutive parts share end points or coincide (all pairs and triples over 6 segments), rings that come back to a vertex already visited (two lobes through the start vertex, spikes, a repeated inner vertex), as shapes and as geo-types polygons; plus shapes READ from records encoded as given: polylines with parts of 1-3 vertices in every arrangement of up to 3 parts, polygons (with and without a hole) whose rings are closed in X / Y while the last vertex differs from the first in Z, M, both or neither; every case is non-trivial",
             bounds: json!({"cases": cases.len(), "max_rings": 9, "max_patches": 3}),
             exhaustive: true,
             assumptions: vec![
